@@ -40,7 +40,13 @@ func MDEntries() []Entry {
 			file, cu, sp, bt := diPrelude(f)
 			id := f.MDID()
 			text := body(f, file, cu, sp, bt)
-			f.TailLine("!%d = %s%s", id, f.Opt("distinct", "distinct "), text)
+			if f.Flip("inline") {
+				// the node written inline as an operand of a tuple (every specialised kind may
+				// be; placement must survive parse and print).
+				f.TailLine("!%d = !{%s}", id, text)
+			} else {
+				f.TailLine("!%d = %s%s", id, f.Opt("distinct", "distinct "), text)
+			}
 			keep(f, id, sp)
 		}}
 	}
